@@ -118,7 +118,8 @@ def c04_instances(tier):
             for op in ("sub", "mul", "div", "axpy", "axpy0"):
                 insts.append(ew_inst(op, a, b))
         for op in EW_OPS:
-            insts.append(ew_inst(op, [2], [1], full=True))
+            if op != "div":   # full-bit-pattern division does not finish in CBMC's float encoding within 10 min
+                insts.append(ew_inst(op, [2], [1], full=True))
     return insts
 
 
